@@ -23,6 +23,8 @@ N10 getattr(x, "name") / setattr(x, "name", v) with an identifier literal  ==>  
 N11 boolean constants produced by substitution are folded (True or x, if False: ..., see _FoldBool)
 
 N12 module-level NAME = <number> (bound once) read in a function of the module where it is not shadowed  ==>  the number
+N16 f(a, **{"k": v})  ==>  f(a, k=v);   kw = {...}; r = f(a, **kw)  ==>  r = f(a, k=...)        (see _SplatLiteral, _inline_kwargs_dicts)
+N17 local bound once to pure arithmetic over numbers, np.pi and parameters  ==>  the expression at its uses   (see _propagate_pure_locals)
 N15 `return self._helper(a, b)` (private method of the same class, tail position)  ==>  the helper's body (see _inline_tail_method_calls)
 N14 <number> (+|-|*) <number>  ==>  the number;   not (a not in b) ==> a in b,  not (a is b) ==> a is not b;   `if not not x` ==> `if x`   (part of the _FoldBool pass)
 
@@ -278,6 +280,134 @@ def _propagate_dict_literals(fn):
                 cands.pop(x.id, None)       # handed out: identity may matter to the caller
             elif isinstance(p, ast.Assign) and p.value is x:
                 cands.pop(x.id, None)       # aliased / stored somewhere
+    if not cands:
+        return 0
+    sub = _ConstSubst(cands)
+    fn.body = [sub.visit(st) for st in fn.body]
+    return len(cands)
+
+
+def _simple_expr(a):
+    while isinstance(a, (ast.Attribute, ast.Subscript)):
+        if isinstance(a, ast.Subscript) and not isinstance(a.slice, (ast.Constant, ast.Name)):
+            return False
+        a = a.value
+    return isinstance(a, (ast.Name, ast.Constant))
+
+
+class _SplatLiteral(ast.NodeTransformer):
+    """N16a:  f(a, **{"k": v, "m": w})  ==>  f(a, k=v, m=w)     identifier string keys, no key repeated among the call's keywords; the dict was evaluated where the
+    keywords are now (after the positional arguments, in the dict's own order)."""
+
+    def __init__(self):
+        self.count = 0
+
+    def visit_Call(self, n):
+        self.generic_visit(n)
+        out = []
+        changed = False
+        for i, k in enumerate(n.keywords):
+            later_simple = all(_simple_expr(x.value) for x in n.keywords[i + 1:])
+            if (k.arg is None and isinstance(k.value, ast.Dict) and k.value.keys and all(isinstance(q, ast.Constant) and isinstance(q.value, str) and q.value.isidentifier() for q in k.value.keys)
+                    and later_simple):
+                names = [q.value for q in k.value.keys]
+                others = {x.arg for x in n.keywords if x.arg}
+                if len(set(names)) == len(names) and not (set(names) & others):
+                    out += [ast.keyword(arg=nm, value=v) for nm, v in zip(names, k.value.values)]
+                    changed = True
+                    continue
+            out.append(k)
+        if changed:
+            n.keywords = out
+            self.count += 1
+        return n
+
+
+def _inline_kwargs_dicts(fn):
+    """N16b:  kw = {"k": v, ...}            bound once in the function, read exactly once: as `**kw` in the very next statement, which is  [x =] f(simple args, **kw)
+              r = f(a, b, **kw)             ==>  r = f(a, b, **{"k": v, ...})   (then N16a).
+    The values are evaluated one statement earlier than they were; with only simple (name / constant / attribute) arguments evaluated in between, nothing can observe it."""
+    done = 0
+    loads, stores = {}, {}
+    for x in ast.walk(fn):
+        if isinstance(x, ast.Name):
+            (loads if isinstance(x.ctx, ast.Load) else stores).setdefault(x.id, []).append(x)
+
+    def lists(node):
+        for fld in ("body", "orelse", "finalbody"):
+            v = getattr(node, fld, None)
+            if isinstance(v, list) and v and isinstance(v[0], ast.stmt):
+                yield v
+        for h in getattr(node, "handlers", []) or []:
+            yield h.body
+    work = [fn]
+    while work:
+        node = work.pop()
+        for lst in lists(node):
+            i = 0
+            while i < len(lst) - 1:
+                a, b = lst[i], lst[i + 1]
+                if (isinstance(a, ast.Assign) and len(a.targets) == 1 and isinstance(a.targets[0], ast.Name) and isinstance(a.value, ast.Dict)
+                        and len(stores.get(a.targets[0].id, [])) == 1 and len(loads.get(a.targets[0].id, [])) == 1):
+                    nm = a.targets[0].id
+                    call = b.value if isinstance(b, (ast.Assign, ast.Return, ast.Expr)) and isinstance(getattr(b, "value", None), ast.Call) else None
+                    if call is not None:
+                        use = [k for k in call.keywords if k.arg is None and isinstance(k.value, ast.Name) and k.value.id == nm]
+                        if len(use) == 1 and all(_simple_expr(x) for x in call.args) and all(_simple_expr(k.value) for k in call.keywords if k is not use[0]) and _simple_expr(call.func):
+                            use[0].value = a.value
+                            del lst[i]
+                            done += 1
+                            continue
+                i += 1
+            for st in lst:
+                if not isinstance(st, (ast.FunctionDef, ast.AsyncFunctionDef, ast.ClassDef)):
+                    work.append(st)
+    return done
+
+
+def _propagate_pure_locals(fn):
+    """N17:  h = 0.5 * np.pi      /      w = n_max + 1         a local bound ONCE to arithmetic (+ - * / unary minus) over numbers, np.pi / math.pi and names that are
+             ... h ... -h ...            ... np.full((n, w), F)      parameters or never-rebound module-level names, never rebound, deleted or declared global
+    ==> every load of the local is replaced by the expression.  Pure arithmetic re-evaluated at the use gives the same value (the names involved are bound once: parameters
+    that the function never assigns).  Loop targets, augmented assignments and names assigned twice are left alone."""
+    sc = _Scope()
+    for st in fn.body:
+        sc.visit(st)
+    params = {a.arg for a in fn.args.posonlyargs + fn.args.args + fn.args.kwonlyargs}
+
+    def pure(e):
+        ok_op = False
+        for x in ast.walk(e):
+            if isinstance(x, ast.BinOp) and isinstance(x.op, (ast.Add, ast.Sub, ast.Mult, ast.Div)):
+                ok_op = True
+            elif isinstance(x, ast.UnaryOp) and isinstance(x.op, (ast.USub, ast.UAdd)):
+                pass
+            elif isinstance(x, ast.Constant) and isinstance(x.value, (int, float)) and not isinstance(x.value, bool):
+                pass
+            elif isinstance(x, ast.Attribute) and isinstance(x.value, ast.Name) and x.value.id in ("np", "numpy", "math") and x.attr in ("pi", "e", "tau"):
+                pass
+            elif isinstance(x, ast.Name) and isinstance(x.ctx, ast.Load):
+                if x.id in ("np", "numpy", "math"):
+                    continue
+                if x.id in sc.bad or x.id in sc.bind:      # a local of this function (possibly rebound): not stable
+                    return False
+            elif isinstance(x, (ast.operator, ast.unaryop, ast.expr_context)):
+                pass
+            else:
+                return False
+        return ok_op
+    cands = {}
+    for name, vals in sc.bind.items():
+        if name in params or name in sc.bad or len(vals) != 1 or vals[0] is None or not isinstance(vals[0], ast.AST):
+            continue
+        if isinstance(vals[0], (ast.BinOp, ast.UnaryOp)) and pure(vals[0]):
+            cands[name] = vals[0]
+    if not cands:
+        return 0
+    # the binding must be a plain `name = expr` statement (not a loop target / with / augmented assignment)
+    plain = {st.targets[0].id for st in ast.walk(fn) if isinstance(st, ast.Assign) and len(st.targets) == 1 and isinstance(st.targets[0], ast.Name)}
+    aug = {st.target.id for st in ast.walk(fn) if isinstance(st, ast.AugAssign) and isinstance(st.target, ast.Name)}
+    cands = {k: v for k, v in cands.items() if k in plain and k not in aug}
     if not cands:
         return 0
     sub = _ConstSubst(cands)
@@ -1658,8 +1788,14 @@ def normalise(tree, relpath=None):
     n_const = _fold_numeric_constants(tree)
     n_alias = n_upd = 0
     n_dict = 0
+    n_kw = n_pure = 0
     for fn in [n for n in ast.walk(tree) if isinstance(n, (ast.FunctionDef, ast.AsyncFunctionDef))]:
         n_dict += _propagate_dict_literals(fn)
+        n_kw += _inline_kwargs_dicts(fn)
+        n_pure += _propagate_pure_locals(fn)
+    sp = _SplatLiteral()
+    sp.visit(tree)
+    n_kw += sp.count
     n_inlined0 = _inline_wrappers(tree)      # before N5: a thin wrapper that rules know by name keeps its name in its callers
     n_noret = _inline_noreturn(tree)
     n_expr = 0
@@ -1696,4 +1832,4 @@ def normalise(tree, relpath=None):
     _Updates().visit(tree)
     n_upd = sum(1 for n in ast.walk(tree) if isinstance(n, ast.Assign)) - before
     ast.fix_missing_locations(tree)
-    return tree, {"aliases_inlined": n_alias, "update_keys_split": n_upd, "table_loops_unrolled": n_unrolled, "wrappers_inlined": n_inlined, "expression_helpers_inlined": n_expr, "noreturn_helpers_inlined": n_noret, "selector_helpers_inlined": n_sel, "tail_method_calls_inlined": n_tail, "flags_inlined": n_flags, "dict_literals_propagated": n_dict, "any_all_expanded": aa.count, "getattr_setattr_folded": gs.count, "numeric_constants_folded": n_const, "boolean_constants_folded": fb.count, "inlined_helpers": sorted(set(_INLINED))}
+    return tree, {"aliases_inlined": n_alias, "update_keys_split": n_upd, "table_loops_unrolled": n_unrolled, "wrappers_inlined": n_inlined, "expression_helpers_inlined": n_expr, "noreturn_helpers_inlined": n_noret, "selector_helpers_inlined": n_sel, "kwargs_dicts_inlined": n_kw, "pure_locals_propagated": n_pure, "tail_method_calls_inlined": n_tail, "flags_inlined": n_flags, "dict_literals_propagated": n_dict, "any_all_expanded": aa.count, "getattr_setattr_folded": gs.count, "numeric_constants_folded": n_const, "boolean_constants_folded": fb.count, "inlined_helpers": sorted(set(_INLINED))}
